@@ -549,7 +549,7 @@ type tableResult struct {
 	stats []string
 	cases []oneCase
 	// for a table the real Check refuses: one request to learn whether the model's allOf expansion fails too
-	probe, probeCode string
+	probe, probeCode, probeInput string
 }
 
 func showInput(rootText string, typeTexts map[string]string, doc string) string {
@@ -599,6 +599,7 @@ func oneTable(seed int64) tableResult {
 			res.stats = append(res.stats, "check_failed_"+w[0]+"_"+w[1])
 			res.probe = prefix + " val " + env + " " + sx(root) + " (l i)"
 			res.probeCode = w[1]
+			res.probeInput = showInput(rootText, typeTexts, "(none: Check() is compared)")
 		}
 		return res
 	}
@@ -664,7 +665,7 @@ func oneTable(seed int64) tableResult {
 }
 
 func Run(args []string) {
-	rep := vh.NewReport(command, "random type tables as in sem-addprops (4 named types biased towards objects - in every second table all four are objects and the root is mostly a reference or an object -, root of depth<=3, recursive references, nullable, additionalProperties) where every third object carries allOf with one or two of the four type names (chains, diamonds, cycles, non-object bases, duplicate keys all occur); JSight text -> real AddType/Check/Validate, same IR as S-expressions -> Lean AO.compileAll then VA.validateT; 12 documents per table: 5 sampled from the schema incl. the members of the base types, 5 sampled then mutated, 2 random; tables refused by the real Check are skipped and counted by error code, and the model is asked once whether its allOf expansion fails too (statistics only: Check also fails for reasons outside the allOf model); nontrivial = an object with allOf is reachable from the root")
+	rep := vh.NewReport(command, "random type tables as in sem-addprops (4 named types biased towards objects - in every second table all four are objects and the root is mostly a reference or an object -, root of depth<=3, recursive references, nullable, additionalProperties) where every third object carries allOf with one or two of the four type names (chains, diamonds, cycles, non-object bases, duplicate keys all occur); JSight text -> real AddType/Check/Validate, same IR as S-expressions -> Lean AO.compileAll then VA.validateT; 12 documents per table: 5 sampled from the schema incl. the members of the base types, 5 sampled then mutated, 2 random; tables refused by the real Check are skipped and counted by error code, and the model is asked once whether its allOf expansion fails too (required when the error code is 402/703/704/705; Check also fails for reasons outside the allOf model, e.g. the type recursion check); nontrivial = an object with allOf is reachable from the root")
 	r := vh.NewRand(salt)
 	nTables := vh.Pick(8000, 240000)
 	const batch = 4000
@@ -695,11 +696,12 @@ func Run(args []string) {
 		}
 		wg.Wait()
 		var reqs, impl, inputs []string
-		var probes, probeCodes []string
+		var probes, probeCodes, probeInputs []string
 		for _, res := range results {
 			if res.probe != "" {
 				probes = append(probes, res.probe)
 				probeCodes = append(probeCodes, res.probeCode)
+				probeInputs = append(probeInputs, res.probeInput)
 			}
 			rep.Stat("tables_generated")
 			for _, s := range res.stats {
@@ -720,8 +722,13 @@ func Run(args []string) {
 			if m == "CHECKERR" {
 				rep.Stat("check_failed_model_expansion_fails_too")
 				rep.Stat("check_failed_model_expansion_fails_too_code_" + probeCodes[i])
+			} else if c := probeCodes[i]; c == "402" || c == "703" || c == "704" || c == "705" {
+				// duplicate key (own keys are distinct: only through allOf), allOf recursion, allOf base that is
+				// not an object, conflicting additionalProperties: the expansion model must fail as well
+				rep.AddDiff(vh.Diff{Component: "sem-allof-check", Level: "correspondence", Input: probeInputs[i],
+					Impl: "Check() fails with code " + c, Model: m, Note: probes[i]})
 			} else {
-				rep.Stat("check_failed_outside_allOf_model_code_" + probeCodes[i])
+				rep.Stat("check_failed_outside_allOf_model_code_" + c)
 			}
 		}
 	}
